@@ -223,16 +223,23 @@ type opReg struct {
 	builtin token.Type
 	// bare: the plugin's token interceptor builds the operator token by hand, without positions
 	bare bool
+	// spell (infix only): the operator is a two-byte non-ASCII character (a multiplication sign, a not sign ...) that the
+	// plugin's token interceptor recognises by CurrentChar / PeekChar before it hands over to next()
+	spell string
 }
 
 func (r opReg) text() string {
 	if r.word != "" {
 		return r.word
 	}
+	if r.spell != "" {
+		return r.spell
+	}
 	return string(r.ch)
 }
 
 var customChars = []byte{'@', '#', '^', '~', '?'}
+var opSpells = []string{"\u00d7", "\u00f7", "\u00ac", "\u00b1", "\u00a7", "\u00b0", "\u00bb"}
 var opWords = []string{"in", "is", "mod", "isa", "divides", "instanceof", "xor", "implies", "concatenated_with"}
 
 // buildWith registers the operators and returns a builder (fresh lexer builder, token interceptor for the characters).
@@ -258,6 +265,13 @@ func buildWith(regs []opReg, m Mode) (*parser.Builder, error) {
 			delete(types, r.ch) // the character itself is not an operator for the lexer
 		}
 	}
+	spellTypes := map[string]token.Type{}
+	for _, r := range regs {
+		if r.spell != "" {
+			spellTypes[r.spell] = types[r.ch]
+			delete(types, r.ch)
+		}
+	}
 	retype := map[string]token.Type{} // via = "illegal": the plugin lets the lexer produce its token and re-types it
 	for _, r := range regs {
 		if r.via == "illegal" && r.builtin == 0 && r.word == "" {
@@ -281,6 +295,16 @@ func buildWith(regs []opReg, m Mode) (*parser.Builder, error) {
 		lexTypes[ch] = tt
 	}
 	lb.UseTokenInterceptor(func(l *lexer.Lexer, next func() token.Token) token.Token {
+		if l.CurrentChar >= 0x80 {
+			for sp, tt := range spellTypes {
+				if l.CurrentChar == sp[0] && l.PeekChar() == sp[1] {
+					tok := l.NewToken(tt, sp)
+					l.ReadChar()
+					l.ReadChar()
+					return tok
+				}
+			}
+		}
 		if tt, ok := lexTypes[l.CurrentChar]; ok {
 			if bare[l.CurrentChar] {
 				// a token built by hand, type and text only (no positions): still that operator
@@ -337,6 +361,9 @@ func buildWith(regs []opReg, m Mode) (*parser.Builder, error) {
 			tt := types[r.ch]
 			if r.word != "" {
 				tt = wordTypes[r.word]
+			}
+			if r.spell != "" {
+				tt = spellTypes[r.spell]
 			}
 			err = pb.RegisterInfixOperator(tt, r.level, func(tok token.Token, left ast.Expression, right func() ast.Expression) ast.Expression {
 				return &cInfix{Tok: tok, Op: r.text(), L: left, R: right(), Level: r.level}
@@ -399,6 +426,17 @@ func isWordOp(s string) bool {
 	return false
 }
 
+// tightenCustom removes the blanks the generic renderer writes around registered character operators (`a @ b` becomes
+// `a@b`, `a \u00d7 -b` becomes `a\u00d7-b`): blanks are not part of an operator. Built-in operators keep theirs (sign fusion).
+func tightenCustom(src string, regs []opReg) string {
+	for _, r := range regs {
+		if r.role == "infix" && r.word == "" && r.builtin == 0 {
+			src = strings.ReplaceAll(src, " "+r.text()+" ", r.text())
+		}
+	}
+	return src
+}
+
 // keywordsAdded: words entered into token.Keywords by buildWith (via = "keywords"); removed again after the parse.
 var keywordsAdded []string
 
@@ -424,7 +462,13 @@ func checkCustomTreeIC(t *fw.T, regs []opReg, tree *cnode, clause string, keyLev
 	// the expression also stands where expressions stand in statements (after `return`, as initialiser, condition,
 	// argument) and is laid out over several lines with the operators leading the continuation lines, in default and in
 	// smart-semicolon mode (no line begins with '(' or '['): grouping is the same everywhere
-	switch t.Index % 7 {
+	switch t.Index % 9 {
+	case 7, 8:
+		// no blanks around the registered character operators
+		src = tightenCustom(src, regs)
+		if t.Index%9 == 8 {
+			src, want = "let v = "+src, "(program (let v "+tree.S()+"))"
+		}
 	case 1:
 		src, want = "function f() { return "+src+" }", "(program (func f () (block (return "+tree.S()+"))))"
 	case 2:
@@ -436,7 +480,7 @@ func checkCustomTreeIC(t *fw.T, regs []opReg, tree *cnode, clause string, keyLev
 	case 5, 6:
 		if ml := breakBeforeInfix(src); !hasLineLeadingBracket(ml) {
 			src = ml
-			if t.Index%7 == 6 {
+			if t.Index%9 == 6 {
 				mode = Mode{Smart: true}
 			}
 		}
@@ -526,6 +570,17 @@ func runC05Levels(t *fw.T) {
 	for _, tr := range trees {
 		checkCustomTree(t, regs, tr, "infix-level-grouping", L)
 		t.Distinct(fmt.Sprintf("L%d %s", L, tr.S()))
+	}
+	// an expression with the registered operator as assignment target: where the parser accepts the text with a built-in
+	// operator of the same level in that place (`a.b = c` at member level; also `a + b = c` as long as targets are not
+	// validated), it accepts the registered one and groups it the same way
+	if analog, ok := map[int]string{3: " || ", 4: " && ", 5: " == ", 6: " < ", 7: " + ", 8: " * ", 13: "."}[L]; ok {
+		for _, op := range []string{"=", "+=", "-="} {
+			if po := parse("a"+analog+"b "+op+" c", Mode{}); po.Err == nil && len(po.Prog.Statements) == 1 && strings.HasPrefix(norm.S(po.Prog), "(program (expr (asg") {
+				checkCustomTree(t, regs, &cnode{kind: "asg", op: op, kids: []*cnode{at(a, b), c}}, "infix-level-grouping", L)
+				t.Count("assignment_targets_with_a_registered_operator_checked_against_the_built-in_analog", 1)
+			}
+		}
 	}
 	t.Feature("levels", fmt.Sprint(L))
 	if L == 8 {
@@ -679,7 +734,17 @@ func runC05Random(t *fw.T) {
 				}
 			}
 		}
-		if rg.word == "" && r.IntN(4) == 0 {
+		if role == "infix" && rg.word == "" && r.IntN(5) == 0 {
+			rg.spell = opSpells[r.IntN(len(opSpells))]
+			for _, o := range regs {
+				if o.spell == rg.spell {
+					rg.spell = ""
+				}
+			}
+		}
+		if rg.spell != "" {
+			// recognised by the plugin's own token interceptor
+		} else if rg.word == "" && r.IntN(4) == 0 {
 			rg.bare = true
 		} else if rg.word == "" && r.IntN(4) == 0 {
 			rg.via = "illegal"
@@ -774,6 +839,24 @@ func runC05History(t *fw.T) {
 	}
 	bad := false
 	ok := t.Guard("registration history", wit, func() {
+		if r.IntN(4) == 0 {
+			// other plugins registered token types before: ids of this history's names lie further up (also beyond 1024,
+			// 1100, 1500: an id is an id, whatever its magnitude)
+			k := []int{1, 7, 23, 24, 25, 30, 47, 63, 100, 255, 600}[r.IntN(11)] + r.IntN(3)
+			hist = append(hist, regOp{Op: "pad", Level: k})
+			for j := 0; j < k; j++ {
+				nm := fmt.Sprintf("pad%d", j)
+				got := lbReal.RegisterTokenType(nm)
+				lbTwin.RegisterTokenType(nm)
+				if got != next {
+					t.Violate("token-id", "sequential model", fmt.Sprintf("RegisterTokenType(%q) returned %d, model says %d", nm, got, next), wit())
+					bad = true
+					return
+				}
+				next++
+			}
+			t.Count("histories_with_token_types_registered_before", 1)
+		}
 		for i := 0; i < n && !bad; i++ {
 			if r.IntN(6) == 0 {
 				// a parser built (and used) in the middle of the history: registrations made afterwards on the same builder
